@@ -173,13 +173,13 @@ impl Property for C13 {
     fn cases(&self, tier: Tier) -> u64 {
         match tier {
             Tier::Quick => 8_000,
-            Tier::Thorough => 300_000,
+            Tier::Thorough => 6_000_000,
         }
     }
     fn min_nontrivial(&self, tier: Tier) -> u64 {
         match tier {
             Tier::Quick => 2_000,
-            Tier::Thorough => 60_000,
+            Tier::Thorough => 1_200_000,
         }
     }
     fn rule(&self) -> &'static str {
